@@ -436,7 +436,15 @@ class C19(Prop):
         feats = sch["features"]["all_msgs"]
         r = ctx.rng("cfg")
         thorough = ctx.tier == "thorough"
-        singles = feats if thorough else sorted(r.sample(feats, 8))
+        # single-feature selections whose module graph is not dependency-closed (computed from the translated
+        # gates / uses, as in Lean's `Features.closed`) are always built
+        def enabled(fs, m):
+            if m in sch["gates"]:
+                return any(x in fs for x in sch["gates"][m])
+            inc = dict((a, b) for a, b in sch["includes"])
+            return (inc[m] in fs) if m in inc else True
+        open_cfgs = [f for f in feats if any(enabled([f], m) and not enabled([f], d) for m, ds in sch["uses"].items() for d in ds)]
+        singles = feats if thorough else sorted(set(r.sample(feats, 8) + open_cfgs))
         configs = [("", "empty")] + [("all_msgs", "all_msgs-nostd")] + [(f, "single") for f in singles]
         serde = r.sample(feats, 12 if thorough else 2)
         configs += [(f + ",serde", "single+serde") for f in serde] + [("serde", "serde-only")]
